@@ -24,7 +24,7 @@ ASANLOG = os.path.join(VERIF, "build", "sanlogs")
 # property -> parts.  A part is (scenario, variant, workers, chunk, extra args)
 PROPS = {
     "C08": dict(level="exploration", design="4.1",
-                parts=[("honest", "plain", 12, 50, []), ("honest", "asan", 4, 12, [])],
+                parts=[("honest", "plain", 10, 50, []), ("honest", "asan", 3, 12, []), ("honest", "asan-if", 3, 6, [])],
                 quick_s=55, thorough_s=900, quick_max=40000, thorough_max=2000000,
                 rule="one run = one simulated client/server connection (handshake, 1..12 data rounds, orderly close) "
                      "generated from H(VERIF_SEED, scenario, index); non-trivial = at least 3 context switches between "
@@ -439,11 +439,11 @@ def run_check(prop, tier, seed):
             print("HARNESS-ERROR", h["msg"][:500])
         write_evidence(prop, tier, seed, cfg, runs, [], [], explore_s, time.time() - t0, note="harness error")
         return 2
-    if nondet:
-        for n in nondet[:5]:
-            print("NONDETERMINISTIC", n)
-        write_evidence(prop, tier, seed, cfg, runs, [], [], explore_s, time.time() - t0, note="nondeterministic runs")
-        return 2
+    # A run that does not re-execute identically inside a worker is normally a harness
+    # fault (exit 2).  It can also be caused by the library keeping hidden state across
+    # runs; then the batch usually contains violations as well.  Those go through the gate
+    # (two fresh-process replays must agree) and, if confirmed, are reported in preference.
+    nondet_pending = bool(nondet)
 
     # collect violations: one representative per class
     byclass = {}
@@ -520,7 +520,13 @@ def run_check(prop, tier, seed):
         print(f"  class={cls} runs={len(reps)} detail={violations[-1]['detail']}")
         rc = max(rc, 1)
 
-    write_evidence(prop, tier, seed, cfg, runs, violations, known_hits, explore_s, time.time() - t0, crashes=crashes)
+    if nondet_pending:
+        for n in nondet[:5]:
+            print("NONDETERMINISTIC", n)
+        if rc != 1:
+            rc = 2
+    write_evidence(prop, tier, seed, cfg, runs, violations, known_hits, explore_s, time.time() - t0, crashes=crashes,
+                   note=("%d in-process re-executions did not reproduce" % len(nondet)) if nondet_pending else None)
     return rc
 
 
